@@ -273,7 +273,7 @@ class Gen:
 
     def call_expr(self, cx, scope, i, d):
         f = self.prog.ints[i]
-        args = [self.expr(cx, scope, pt, min(d - 1, 1)) for _, pt in f.params]
+        args = [self.expr(cx, scope, pt, min(d - 1, 1) if (pt[0] in PRIMS or self.r.random() < 0.6) else 2) for _, pt in f.params]
         given = None
         if f.defaults and self.r.random() < 0.6:
             given = self.r.randrange(len(f.params) - len(f.defaults), len(f.params) + 1)
@@ -1021,6 +1021,61 @@ class Gen:
         f = Fun(f"p{idx}", [("a0", t)], t, body, True)
         f.probe = t
         f.probe_calls = [[x % W] for x in (r.sample(xs, 5) if mode != "helper_const" else xs[:1])]
+        return f
+
+    def callarg_probe_function(self, idx):
+        """internal call whose argument is a list literal / struct constructor / DynArray literal whose members contain
+        internal calls (with parameters), optionally followed by word arguments; and nested calls in word arguments"""
+        r = self.r
+        p = self.prog
+        W = 2 ** 256
+        t = r.choice([U256, ("int", 128, False), ("int", 64, False), ("int", 8, False)])
+        lo, hi = int_bounds(t)
+        a0, a1 = E("var", t, name="a0", id=0), E("var", t, name="a1", id=1)
+
+        def add_int(params, ret, body):
+            gi = len(p.ints)
+            p.ints.append(Fun(f"g{gi}", params, ret, body, False))
+            self.writes[gi] = set()
+            return gi
+
+        def call(gi, *args):
+            f = p.ints[gi]
+            return E("call", f.ret, name=f.name, id=gi, args=list(args), given=None)
+        x = E("var", t, name="a0", id=0)
+        sc = add_int([("a0", t)], t, [S("return", e=E("bin", t, op="Add", a=E("bin", t, op="Div", a=x, b=E("const", t, v=2)), b=E("const", t, v=1)))])
+        shape = r.choice(["list", "list_mixed", "struct", "dyn", "list_then_word", "nested", "call_of_call"])
+        if shape in ("list", "list_mixed", "list_then_word"):
+            n = r.randrange(2, 4)
+            at = ("sarr", t, n)
+            elems = [call(sc, a0), call(sc, a1)] + [E("const", t, v=3)] * (n - 2)
+            if shape == "list_mixed":
+                elems[0] = a0.clone()
+            if shape == "list_then_word":
+                idf = add_int([("a0", at), ("a1", t)], at, [S("return", e=E("var", at, name="a0", id=0))])
+                e, ret = call(idf, E("list", at, elems=elems), a1.clone()), at
+            else:
+                idf = add_int([("a0", at)], at, [S("return", e=E("var", at, name="a0", id=0))])
+                e, ret = call(idf, E("list", at, elems=elems)), at
+        elif shape == "struct":
+            st = ("struct", f"Sp{idx}", (("u", t), ("v", t)))
+            p.structs.append(st)
+            idf = add_int([("a0", st)], st, [S("return", e=E("var", st, name="a0", id=0))])
+            e, ret = call(idf, E("list", st, elems=[call(sc, a0), call(sc, a1)])), st
+        elif shape == "dyn" and "dynarrays" in self.feat:
+            at = ("darr", t, 3)
+            idf = add_int([("a0", at)], at, [S("return", e=E("var", at, name="a0", id=0))])
+            e, ret = call(idf, E("list", at, elems=[call(sc, a0), call(sc, a1)])), at
+        elif shape == "call_of_call":
+            e, ret = call(sc, call(sc, call(sc, a0))), t
+        else:
+            h2 = add_int([("a0", t), ("a1", t)], t,
+                         [S("return", e=E("bin", t, op="BXor", a=E("bin", t, op="Div", a=E("var", t, name="a0", id=0), b=E("const", t, v=2)),
+                                          b=E("var", t, name="a1", id=1)))])
+            e, ret = call(h2, call(sc, a0), call(h2, call(sc, a1), a0.clone())), t
+        f = Fun(f"p{idx}", [("a0", t), ("a1", t)], ret, [S("return", e=e)], True)
+        f.probe = t
+        f.probe_calls = [[a % W, b % W] for a, b in [(2, 4), (6, 10), (hi - 1, 0), (0, hi - 1), (7, 7)]]
         return f
 
     def map_probe_function(self, idx):
@@ -1928,6 +1983,9 @@ class Gen:
             if "maps" in self.feat:
                 for _ in range(3 if po else 1):
                     p.exts.append(self.map_probe_function(len(p.exts)))
+            if "internal" in self.feat and "arrays" in self.feat and "structs" in self.feat:
+                for _ in range(4 if po else 1):
+                    p.exts.append(self.callarg_probe_function(len(p.exts)))
             if "shifts" in self.feat:
                 ns = 8 if po else 1      # 4 probe-only programs x 8 = the whole (amount x direction x signedness) table
                 for k in range(ns):
